@@ -168,3 +168,111 @@ func runLoopState(c *core.Ctx) []core.Obligation {
 	}
 	return b.out
 }
+
+// R-APPENDSHARE — append(base, …) inside a loop with a loop-invariant base hands out, on every
+// iteration, a slice that may share base's backing array with the slices of the other iterations
+// (whenever cap(base) > len(base)). If the result is retained (stored in a descriptor, passed to a
+// callback, recursed on), it must be clamped with a full slice expression x[:len(x):len(x)] — or
+// base must be — so that a later append copies instead of overwriting a sibling's elements.
+func init() {
+	Register(&Rule{
+		ID:    "R-APPENDSHARE",
+		Doc:   "every append whose first argument is loop-invariant inside a loop (not the accumulator idiom x = append(x, …)) and whose result escapes the iteration (stored, passed to a call) is followed by a full slice expression with max = len before it escapes, or its base is such an expression: otherwise the retained slices of different iterations alias each other's elements",
+		Props: []string{"C04", "C03", "C01", "C02"},
+		Min:   map[string]int{"C04": 1},
+		Run:   runAppendShare,
+	})
+}
+
+func runAppendShare(c *core.Ctx) []core.Obligation {
+	b := newOb(c, "R-APPENDSHARE")
+	for _, fn := range c.RepoFunctions() {
+		if fn.Blocks == nil || fn.Synthetic != "" {
+			continue
+		}
+		name := shortName(fn)
+		var props []string
+		switch {
+		case strings.HasPrefix(name, "thrift."):
+			props = []string{"C04"}
+		case strings.HasPrefix(name, "proto."):
+			props = []string{"C03"}
+		case strings.HasPrefix(name, "json.(decoder)") || strings.HasPrefix(name, "json.(*Decoder)"):
+			props = []string{"C02"}
+		case strings.HasPrefix(name, "json."):
+			props = []string{"C01"}
+		default:
+			continue
+		}
+		n := 0
+		for _, h := range loopHeaders(fn) {
+			body := loopBlocks(h)
+			for blk := range body {
+				for _, in := range blk.Instrs {
+					call, ok := in.(*ssa.Call)
+					if !ok {
+						continue
+					}
+					bi, ok := call.Common().Value.(*ssa.Builtin)
+					if !ok || bi.Name() != "append" || len(call.Common().Args) != 2 {
+						continue
+					}
+					base := call.Common().Args[0]
+					if bin, ok := base.(ssa.Instruction); ok && bin.Block() != nil && body[bin.Block()] {
+						continue // defined in the loop: accumulator or per-iteration value
+					}
+					if k, isK := base.(*ssa.Const); isK && k.Value == nil {
+						continue // append(nil, …) allocates
+					}
+					if sl, ok := base.(*ssa.Slice); ok && sl.Max != nil {
+						continue // base already clamped
+					}
+					// does the result escape without a clamp?
+					escapes, clamped := false, false
+					var walk func(v ssa.Value, depth int)
+					seen := map[ssa.Value]bool{}
+					walk = func(v ssa.Value, depth int) {
+						if seen[v] || depth > 4 {
+							return
+						}
+						seen[v] = true
+						for _, ref := range *v.Referrers() {
+							switch r := ref.(type) {
+							case *ssa.Slice:
+								if r.Max != nil {
+									clamped = true
+								} else {
+									walk(r, depth+1)
+								}
+							case *ssa.Phi:
+								walk(r, depth+1)
+							case *ssa.Store:
+								if r.Val == v {
+									escapes = true
+								}
+							case *ssa.Call:
+								if _, isB := r.Common().Value.(*ssa.Builtin); !isB {
+									escapes = true
+								}
+							case *ssa.MakeClosure, *ssa.Return:
+								escapes = true
+							}
+						}
+					}
+					walk(call, 0)
+					if !escapes && !clamped {
+						continue
+					}
+					n++
+					key := fmt.Sprintf("appendshare:%s#%d", name, n)
+					if clamped && !escapes {
+						b.addP(props, core.Discharged, key, c.InstrPos(call), "the appended slice is clamped (x[:len(x):len(x)]) before it is retained")
+					} else {
+						b.addP(props, core.Violation, key, c.InstrPos(call), fmt.Sprintf("%s appends to the same loop-invariant base on every iteration and retains the result without clamping its capacity: once the base has spare capacity the retained slices share one backing array, and the next append overwrites a sibling's elements (every field of the next embedded struct ends up with the last sibling's index path)", name))
+					}
+				}
+			}
+		}
+	}
+	return b.out
+}
